@@ -261,7 +261,8 @@ def cases(tier):
     pair_kinds = ["diagonal", "tri_lower", "dense_square", "dense_pd", "orthogonal", "scaled_identity",
                   "invtri_upper", "trifact_neg_upper"]
     if thorough:
-        pair_kinds = [k for k in ml.leaves(2) if not k.startswith("blockdiag") and not k.startswith(HEAVY)] + ["lowrank_pd"]
+        pair_kinds = ["diagonal", "pos_diagonal", "tri_lower", "invtri_upper", "trifact_neg_upper", "dense_square", "inv_lu", "dense_pd",
+                      "dense_sym", "eig_sym", "orthogonal", "scaled_identity", "lowrank_sym", "lowrank_square_k2"]
     prods = []
     if thorough:
         for kl in pair_kinds:
